@@ -776,7 +776,7 @@ package engine
 
 //@ func (Matches).Print [C18]
 //@   trusted
-//@   modifies *
+//@   modifies stdout
 
 // ---- the replacer: each instruction appends the text of its `with` item (C05) ----
 //@ pred replText(m Match) := m.Replacement.hasValue ? m.Replacement.data : ""
